@@ -135,6 +135,12 @@ func shapeDoc(s map[string]any, r *rand.Rand) *sbom.Document {
 			a.Originators = []*sbom.Person{nil}
 		case "nilextref":
 			a.ExternalReferences = append(a.ExternalReferences, nil)
+		case "paren-person":
+			// names and addresses that contain the characters the SPDX actor syntax "Name (address)" is built from
+			a.Suppliers = []*sbom.Person{{Name: "ACME Corp. :)", Email: "sbom@acme.example"}}
+			a.Originators = []*sbom.Person{{Name: "open (source", Email: "a(b)@c.example", IsOrg: true}}
+			c.Suppliers = []*sbom.Person{{Name: ")", Email: ")"}, {Name: "(", Email: "("}}
+			c.Originators = []*sbom.Person{{Name: " (", Email: "x"}}
 		}
 		ct := sbom.Edge_contains
 		switch str(s, "edges") {
@@ -167,6 +173,19 @@ func shapeDoc(s map[string]any, r *rand.Rand) *sbom.Document {
 			nl.Edges = []*sbom.Edge{{Type: ct, From: "a"}, {Type: 99, From: "b", To: []string{"c"}}}
 		case "selfloop":
 			nl.Edges = []*sbom.Edge{{Type: ct, From: "a", To: []string{"a"}}, {Type: sbom.Edge_dependsOn, From: "b", To: []string{"b"}}}
+		case "shared-child": // a node contained by a top-level node AND by a node below the root
+			nl.Nodes = append(nl.Nodes, &sbom.Node{Id: "d", Name: "nd"})
+			nl.Edges = []*sbom.Edge{{Type: ct, From: "a", To: []string{"c"}}, {Type: ct, From: "b", To: []string{"d"}}, {Type: ct, From: "c", To: []string{"d"}}}
+		case "random": // seeded containment / dependency edges over five nodes (the seed is the position of the shape)
+			nl.Nodes = append(nl.Nodes, &sbom.Node{Id: "d", Name: "nd"}, &sbom.Node{Id: "e", Name: "ne"})
+			ids := []string{"a", "b", "c", "d", "e"}
+			for j, m := 0, 2+r.Intn(6); j < m; j++ {
+				e := &sbom.Edge{Type: pick(r, []sbom.Edge_Type{ct, ct, sbom.Edge_dependsOn}), From: pick(r, ids)}
+				for q, mm := 0, 1+r.Intn(2); q < mm; q++ {
+					e.To = append(e.To, pick(r, ids))
+				}
+				nl.Edges = append(nl.Edges, e)
+			}
 		case "negtype":
 			nl.Edges = []*sbom.Edge{{Type: ct, From: "a", To: []string{"b"}}, {Type: -1, From: "b", To: []string{"c"}}, {Type: -2147483648, From: "a", To: []string{"c"}}}
 		}
@@ -283,7 +302,7 @@ func serRun(args []string) error {
 			// elements) in full - there every node and edge variant reaches the deepest code - plus a seeded share of the rest
 			var core, rest []map[string]any
 			for _, sh := range all {
-				if str(sh, "meta") == "full" && str(sh, "nl") == "nodes" && str(sh, "roots") == "one" && str(sh, "extra") == "none" &&
+				if str(sh, "meta") == "full" && str(sh, "nl") == "nodes" && str(sh, "roots") == "one" && (str(sh, "extra") == "none" || str(sh, "extra") == "paren-person") &&
 					(str(sh, "dt") == "none" || str(sh, "dt") == "typed") {
 					core = append(core, sh)
 				} else {
